@@ -168,6 +168,32 @@ def run_refcheck(quick=True):
     return f"{n} validation tests passed"
 
 
+def run_fs32_conformance():
+    """Binds the `@fs32` shadow to the real thing: the unmodified /repo/aes crate is interpreted as a real 32-bit build
+    (cargo +nightly miri run --target i686-unknown-linux-gnu, fixslice32 keys) on a fixed trace set and must give the
+    same bytes as the shadow run natively.  A difference means the shadow misrepresents the code: machinery error."""
+    import subprocess
+    env = dict(os.environ)
+    env.update(CARGO_NET_OFFLINE="true", RUSTFLAGS="", MIRIFLAGS="-Zmiri-disable-isolation")
+    env["CARGO_TARGET_DIR"] = os.path.join(core.TARGET, "fs32trace")
+    r1 = subprocess.run(["cargo", "run", "--offline", "-q", "-p", "fs32trace", "--features", "shadow"], cwd=core.HARNESS, env=env, capture_output=True, text=True)
+    if r1.returncode != 0:
+        core.die("fs32trace (shadow) failed:\n" + r1.stderr[-2000:])
+    env["CARGO_TARGET_DIR"] = os.path.join(core.TARGET, "fs32trace-miri")
+    try:
+        r2 = subprocess.run(["cargo", "+nightly", "miri", "run", "--offline", "-q", "-p", "fs32trace", "--target", "i686-unknown-linux-gnu"], cwd=core.HARNESS, env=env, capture_output=True, text=True, timeout=1800)
+    except Exception as e:  # noqa
+        return dict(status="miri unavailable: " + str(e)[:200], traces=0)
+    if r2.returncode != 0 or "size_of" not in r2.stdout:
+        return dict(status="miri i686 interpretation unavailable on this image: " + r2.stderr[-300:], traces=0)
+    a, b = r1.stdout.strip().splitlines(), r2.stdout.strip().splitlines()
+    sa, sb = a[0].rsplit(" ", 1)[0], b[0].rsplit(" ", 1)[0]   # size_of lines without the pointer width
+    if sa != sb or a[1:] != b[1:]:
+        core.die("shadow conformance: the @fs32 shadow and the real 32-bit build (miri i686) disagree:\n" + sa + "\n" + sb + "\n" +
+                 "\n".join(f"{x} | {y}" for x, y in zip(a[1:], b[1:]) if x != y)[:1500])
+    return dict(status="identical", traces=len(a) - 1, sizes=sa)
+
+
 def run_tfnc(pid, tier):
     """Threefish built without its `cipher` feature (own binary: cargo unifies features inside one build)."""
     import subprocess
@@ -236,7 +262,7 @@ TABLE = {
              "E(D(b))==b, also across Enc-only/Dec-only/converted instance pairs; a case is non-trivial when E(b) != b.",
         assumptions=ASSUME_STD),
     "C02": dict(
-        level="model_checking", cfgs=lambda t: std_cfgs(t, n0_crates="aes", sens="aes"),
+        level="model_checking", cfgs=lambda t: std_cfgs(t, n0_crates="aes", sens="aes"), fs32_conformance=True,
         rule=RULE_STAR + "each case is the trace new_from_slice(key) -> encrypt_block/decrypt_block(block) (plus batches of 3 and 43 blocks per key) "
              "executed on the implementation and on the FIPS-197 reference model (validated against OpenSSL and libgcrypt); non-trivial when the model output differs from the input.",
         assumptions=ASSUME_STD + ["the FIPS-197 reference model (computed S-box, validated against OpenSSL/libgcrypt/FIPS vectors by refcheck)"]),
@@ -362,6 +388,8 @@ def run_property(pid, tier):
             v["config"] = cfg.label
             violations.append(v)
         results.append((cfg, res))
+    if spec.get("fs32_conformance") and tier == "thorough":
+        POST_INFO["fs32_shadow_vs_real_32bit_build"] = run_fs32_conformance()
     if spec.get("tfnc"):
         res, v = run_tfnc(pid, tier)
         violations += v
@@ -431,7 +459,8 @@ def run_property(pid, tier):
     if refcheck:
         cov["oracle_validation"] = refcheck
     if spec["level"] == "model_checking":
-        cov.update(states=counters.get("histories", ev), transitions=counters.get("transitions", calls), traces_validated_against_impl=refc)
+        extra_tr = (POST_INFO.get("fs32_shadow_vs_real_32bit_build") or {}).get("traces", 0)
+        cov.update(states=counters.get("histories", ev), transitions=counters.get("transitions", calls), traces_validated_against_impl=refc + extra_tr)
     if POST_INFO:
         cov.update(POST_INFO)
     notes = []
@@ -460,22 +489,72 @@ def setup():
     return 0
 
 
-def replay(path):
-    v = json.load(open(path))
-    label = v.get("config", "N0-vdev-feat")
+def _cfg_from_label(label):
+    label = label.split("@")[0]
     parts = label.split("-")
-    cfg = Cfg(parts[0], parts[1], parts[2] == "feat", lite=(len(parts) > 3 and parts[3] == "lite"))
+    return Cfg(parts[0], parts[1], parts[2] == "feat", lite=(len(parts) > 3 and parts[3] == "lite"))
+
+
+def replay(path):
+    """Re-execute a recorded violation twice. Exit 1: still violated; 0: the property holds on that case; 2: machinery."""
+    import subprocess
+    v = json.load(open(path))
     core.ensure_seam()
+    case = v.get("case", {})
+    kind = case.get("kind")
+    if kind == "loom":
+        viol = run_loom(v["property"], "quick")
+        for x in viol:
+            print("replay: VIOLATED:", x["observed"][:400])
+        return 1 if viol else 0
+    if kind == "cross":
+        ca, cb = _cfg_from_label(case["config_a"]), _cfg_from_label(case["config_b"])
+        try:
+            core.build(ca)
+            core.build(cb)
+        except core.BuildFailure as b:
+            print(b.log[-3000:])
+            return 2
+        tier = "quick"
+        bad = 0
+        for rnd in range(2):
+            da = _chunk_detail(ca, case.get("variant_a", "") + "|" + case["chunk"], tier)
+            db = _chunk_detail(cb, case.get("variant_b", "") + "|" + case["chunk"], tier)
+            diff = None
+            if da is None or db is None:
+                print("replay: chunk detail unavailable")
+                return 2
+            for x, y in zip(da, db):
+                if x["obs"] != y["obs"]:
+                    diff = (x, y)
+                    break
+            if diff:
+                bad += 1
+                print(f"replay {rnd}: VIOLATED: case {json.dumps(diff[0]['case'])}: {case['config_a']} gives {diff[0]['obs']}, {case['config_b']} gives {diff[1]['obs']}")
+            else:
+                print(f"replay {rnd}: the two builds agree on chunk {case['chunk']}")
+        return 1 if bad == 2 else 0 if bad == 0 else 3
+    if kind in ("tfnc", "tfnc-zeroize"):
+        res, viol = run_tfnc(v["property"], "quick")
+        viol += (res or {}).get("violations", [])
+        for x in viol:
+            print("replay: VIOLATED:", x["observed"][:400])
+        return 1 if viol else 0
+    cfg = _cfg_from_label(v.get("config", "N0-vdev-feat"))
     try:
         core.build(cfg)
     except core.BuildFailure as b:
         print(b.log[-3000:])
         return 1 if v.get("what") == "build-failure" else 2
-    import subprocess
+    if kind in ("build",):
+        print("replay: the configuration builds now")
+        return 0
+    if kind == "crash":
+        res, crash = core.run_xplore(cfg, v["property"], "quick", case.get("args") or [])
+        print("replay: explorer", "crashed again" if crash else "completed")
+        return 1 if crash else 0
     r = subprocess.run([cfg.binary, "replay", path], env=cfg.env())
     return r.returncode
-
-
 NOT_YET = {}
 EXTRA_ENGINES = [
     {"name": "seqmc (stateright)", "path": "harness/vh/src/props/hist.rs, harness/vh/src/props/c14.rs", "serves_properties": ["C12", "C14", "C15"],
